@@ -1,8 +1,8 @@
 SPECIFICATION Spec
 CONSTANTS
   NRs = {1,2,3,4}
-  Ns = {0,1,2,3,4,5}
-  Vals = {0,1,3}
+  Ns = {0,1,2,3,4}
+  Vals = {0,1}
   Wts = {0,1,2}
   WDen = 1
   SmpMode = "all"
